@@ -184,3 +184,10 @@ PROPS['C27'] = {'level': 'exploration',
             '(probe c27.logger-bytes shows the same paths do log); non-trivial = the run went through a failure, deadline, corruption or missing-filter path; distinct = workload+decision digests',
     'expect_probes': ['c27.logger-bytes'],
     'assumptions': ['output is observed at the file-descriptor level (fd 1 and fd 2), which covers fmt.Print*, log, slog default handlers and panics alike']}
+
+# C06: exploration (pairs of faults, stalls, schedules) plus per-history single-fault enumeration.
+PROPS['C06']['level'] = 'fault_enumeration'
+PROPS['C06']['quick'] = [('life:general', 5000), ('life:enum', 60, {'SIM_ENUM': '1'})]
+PROPS['C06']['thorough'] = [('life:general', 250000), ('life:enum', 4000, {'SIM_ENUM': '1'})]
+PROPS['C06']['rule'] += ('; plus, per sampled history (life:enum), a fault-free reference execution and one re-execution per store call position of the whole history (CreateFile, Write, Close, Abort, '
+                         'Update, TombstoneFile, ...) with an injected error there (short-write / late-error variants on Write and Close): exhaustive over single-fault positions per history')
